@@ -36,3 +36,11 @@ package tchannel
 //@   defines nexch(mexset) == n
 //@   ensures n >= 0
 //@   property C04
+
+// Peer selection pops and re-pushes entries of the shared peer heap: it runs
+// only with the list's lock held for WRITING (concurrent selections under a
+// read lock would race on the heap).
+//@ func (l *PeerList) choosePeer(prevSelected map[string]struct{}, avoidHost bool) (p *Peer)
+//@   label heap-is-rearranged-under-the-write-lock
+//@   requires wlocked(l)
+//@   property C04 C15
